@@ -20,6 +20,9 @@ CLAIMED = {
     "C03": ("Layout independence is a Coq theorem: the code-shaped sweep, policy extraction and policy-evaluation kernels, and whole runs of VI, RVI, periodic VI and PI (final state, convergence flag and every checkpoint snapshot) are equal for ANY two layouts and ANY padding content; returned vectors have n_states entries. Tied to the code by whole-run bit-exact correspondence under emulated device counts 1-3 (1-8 thorough) and batch sizes that do / do not pad, including no-padding multi-device layouts.",
             "Coq 8.16.1 kernel; kernels hand-modelled (Model/Kernel.v) and tied by correspondence; pmap/sharding behaviour is only observable by execution (XLA_FLAGS host device emulation); semi-asynchronous runs are compared per partition.",
             "Coq proof (runs equal across layouts) + multi-device bit-exact differential runs", "6 C03"),
+    "C01": ("Error bounds of the documented stopping rules are Coq theorems for every well-formed MDP, gamma in (0,1), epsilon, start state, checkpoint setting and run length: VI/span < epsilon, VI/max_diff values < epsilon and policy < 2 epsilon, PI < epsilon/gamma (span) and 2 epsilon/gamma (max_diff) under the hypothesis the proof forces (last evaluation converged; the unconditional statement is refuted in Coq by a witness that replays on the real code - open known finding), any block Gauss-Seidel sweep (semi-async) < epsilon and 2 gamma epsilon/(1-gamma). Whole runs of VI, PI and SAVI (fixed and shuffled) are compared bit-exactly with the kernel-evaluated model; returned policies are evaluated exactly against exact V*.",
+            "Coq 8.16.1 kernel; solver state machines hand-modelled (Model/Solvers.v) and tied by whole-run correspondence; existence of V*/v_pi not proved (bounds hold for every solution, uniqueness proved); floating point outside the model.",
+            "Coq proof of a-priori bounds lifted to solver runs + bit-exact run correspondence + exact policy evaluation oracle", "6 C01"),
 }
 
 man = {
